@@ -166,12 +166,28 @@ pub fn encode_by_frames_packet(cfg: &Verified<config::Encoder>, samples: &[i32],
     let mut src = TestSource::new(samples, channels, bps, rate, if kind == SrcKind::Mem { SrcKind::Int } else { kind });
     src.packet = packet;
     let mut stream = Stream::new(rate, channels, bps).map_err(|e| format!("{e:?}"))?;
-    let mut fb = FrameBuf::with_size(channels, block).map_err(|e| format!("{e:?}"))?;
+    // documented API use, varied deterministically with the input: the buffer is either created with the
+    // block size or created larger / smaller and then `resize`d to it
+    let mut fb = match samples.len() % 3 {
+        0 => FrameBuf::with_size(channels, block).map_err(|e| format!("{e:?}"))?,
+        1 if block + 7 <= 32767 => {
+            let mut f = FrameBuf::with_size(channels, block + 7).map_err(|e| format!("{e:?}"))?;
+            f.resize(block);
+            f
+        }
+        _ => {
+            let mut f = FrameBuf::with_size(channels, (block / 2).max(32)).map_err(|e| format!("{e:?}"))?;
+            f.resize(block);
+            f
+        }
+    };
     let mut ctx = Context::new(bps, channels);
     stream.stream_info_mut().set_block_sizes(block, block).map_err(|e| format!("{e:?}"))?;
     let mut frames = vec![];
     loop {
         let n = src.read_samples(block, &mut (&mut fb, &mut ctx)).map_err(|e| format!("{e:?}"))?;
+        // a caller may look at the running digest / count at any time
+        let _ = (ctx.md5_digest(), ctx.total_samples());
         if n == 0 {
             break;
         }
